@@ -78,10 +78,14 @@ class PduMachine(HistorySpec):
         k = self.kind
         ops = {"pack": st.just(0), "decode_and_continue": st.just(0)}
         ent = st.one_of(st.none(), M.st_entity_tlv().map(lambda t: t["id"]))
+        # the entity the PDU already names, spelled with another width (same number: entity-id TLVs compare by number)
+        same_other_width = st.sampled_from([1, 2, 4, 8])
         if k == "eof":
             ops["set_fault_location"] = ent
+            ops["set_fault_location_same_entity_other_width"] = same_other_width
         elif k == "finished":
             ops["set_fault_location"] = ent
+            ops["set_fault_location_same_entity_other_width"] = same_other_width
             ops["set_responses"] = st.lists(M.st_fsresp_tlv(8, 4), max_size=3)
             ops["set_condition_code"] = st.sampled_from(M.CONDITION_CODES)
             # any code, also one that does not admit the fault location the PDU currently holds: that intermediate state is outside the
@@ -136,6 +140,17 @@ class PduMachine(HistorySpec):
             v = a if allowed else None
             o.fault_location = None if v is None else M.build_tlv({"t": "entity", "id": v})
             m["fault"] = v
+        elif name == "set_fault_location_same_entity_other_width":
+            cur = m.get("fault")
+            allowed = m["cc"] != 0 if s.kind == "eof" else m["cc"] in M.FIN_FAULT_CCS
+            if cur is not None and allowed:
+                num = int(cur, 16)
+                widths = [w for w in (1, 2, 4, 8) if num < (1 << (8 * w)) and 2 * w != len(cur)]
+                if widths:
+                    w = widths[a % len(widths)]
+                    v = num.to_bytes(w, "big").hex()
+                    o.fault_location = M.build_tlv({"t": "entity", "id": v})
+                    m["fault"] = v
         elif name == "set_responses":
             o.file_store_responses = [M.build_tlv(r) for r in a]
             m["responses"] = a
